@@ -1,12 +1,75 @@
 import Driver.Util
-/- Line-protocol handler for the `cred` model (stub until the model exists). -/
+import Munge.Model.ToyPrims
+/- Line-protocol handler for the credential / request model (same ops as harness/h_cred.c, toy variant). -/
 namespace Driver.Cred
+open Munge Munge.Cred
 
 structure St where
-  dummy : Unit := ()
+  cf : Conf := { macKey := (List.range 20).map (fun i => UInt8.ofNat (0x11 + i)),
+                 dekKey := (List.range 20).map (fun i => UInt8.ofNat (0x77 - i)) }
+  now : Int := 1000000
+  peer : Option (Nat × Nat) := some (1000, 1000)
+  rnd : Bytes := []
+  mem : List (Nat × Nat) := []
+  rs : ReplaySet := []
 
 def init : St := {}
 
-def step (st : St) (_args : List String) : St × String := (st, "bad-op")
+def kvOf (w : String) : Option (String × String) :=
+  match w.splitOn "=" with
+  | [k, v] => some (k, v)
+  | _ => none
+
+def parsePair (s : String) : Option (Nat × Nat) :=
+  match s.splitOn ":" with
+  | [a, b] => do pure ((← a.toNat?), (← b.toNat?))
+  | _ => none
+
+def hexNat (s : String) : Nat :=
+  s.toList.foldl (fun acc c => acc * 16 + ((Hex.hexVal c).getD 0)) 0
+
+def setEnv (st : St) (args : List String) : St :=
+  args.foldl (fun st w =>
+    match kvOf w with
+    | some ("now", v) => { st with now := if v == "fail" then -1 else (v.toInt?.getD st.now) }
+    | some ("peer", v) => { st with peer := if v == "fail" then none else parsePair v }
+    | some ("rnd", v) => { st with rnd := ((Hex.ofHex v).getD []).take 64 }
+    | some ("mem", v) => { st with mem := if v == "-" then [] else (v.splitOn ";").filterMap parsePair }
+    | some ("maxttl", v) => { st with cf := { st.cf with maxTtl := v.toInt?.getD 0 } }
+    | some ("defttl", v) => { st with cf := { st.cf with defTtl := v.toInt?.getD 0 } }
+    | some ("skew", v) => { st with cf := { st.cf with gotClockSkew := v != "0" } }
+    | some ("rootauth", v) => { st with cf := { st.cf with gotRootAuth := v != "0" } }
+    | some ("retryflag", v) => { st with cf := { st.cf with gotSocketRetry := v != "0" } }
+    | some ("defc", v) => { st with cf := { st.cf with defCipher := v.toNat?.getD 0 } }
+    | some ("defm", v) => { st with cf := { st.cf with defMac := v.toNat?.getD 0 } }
+    | some ("defz", v) => { st with cf := { st.cf with defZip := v.toNat?.getD 0 } }
+    | some ("addr", v) => { st with cf := { st.cf with addr := be32 (hexNat v) } }
+    | some ("mackey", v) => { st with cf := { st.cf with macKey := ((Hex.ofHex v).getD []).take 64 } }
+    | some ("dekkey", v) => { st with cf := { st.cf with dekKey := ((Hex.ofHex v).getD []).take 64 } }
+    | _ => st) st
+
+def flag (args : List String) (key : String) : Option String :=
+  (args.filterMap kvOf).find? (·.1 == key) |>.map (·.2)
+
+def step (st : St) (args : List String) : St × String :=
+  match args with
+  | "req" :: h :: rest =>
+    match hexArg h with
+    | none => (st, "bad-op")
+    | some req =>
+      let st := setEnv st rest
+      let sendOk := (flag rest "sendfail").getD "0" == "0"
+      let req := match (flag rest "cut").bind String.toNat? with
+        | some k => req.take k
+        | none => req
+      let env : Env := { now := st.now, peer := st.peer, rnd := st.rnd,
+                         member := fun u g => st.mem.contains (u, g) }
+      let (rsp, rs') := jobExec ToyPrims.prims st.cf env st.rs req sendOk
+      ({ st with rs := rs' }, s!"rsp={Hex.showHex (rsp.getD [])} leak=0")
+  | "conf" :: rest => (setEnv st rest, "ok")
+  | "replay-reset" :: _ => ({ st with rs := [] }, "ok")
+  | "purge" :: rest => let st := setEnv st rest; ({ st with rs := purge st.rs st.now }, "ok")
+  | "reset-conf" :: _ => ({ st with cf := init.cf }, "ok")
+  | _ => (st, "bad-op")
 
 end Driver.Cred
